@@ -161,6 +161,18 @@ def removeEncoding (l : Language) : Language × Bool :=
 def removeNonlinguisticModifier (l : Language) : Language × Bool :=
   if l.mod = some "euro".toList then ({ l with mod := none }, true) else (l, false)
 
+/-- `_get_principal_territory_code` -/
+def principalTerritory (ll : List Char) : Option (List Char) := Generated.Locale.principalTerritory.lookup ll
+
+/-- `remove_principal_territory_code` (the mutated object) -/
+def removePrincipalTerritory (l : Language) : Language :=
+  match l.cc with
+  | none => l
+  | some cc => if principalTerritory l.ll = some cc then { l with cc := none } else l
+
+/-- `Language.is_almost_equal`: equal after dropping a territory that is the language's principal one -/
+def isAlmostEqual (a b : Language) : Bool := removePrincipalTerritory a == removePrincipalTerritory b
+
 /-! ## Python string helpers -/
 
 /-- `s.split(sep)` for a one-character separator -/
